@@ -678,6 +678,33 @@ fn c_into_iter<const N: usize, const HEAP: bool, const LEN: usize>() {
 }
 op_harnesses!(c_into_iter, VERIF_PARAM_UNWIND, u3_into_iter_n1_inline, u3_into_iter_n1_heap, u3_into_iter_n2_inline, u3_into_iter_n2_heap);
 
+/// The iterator protocol beyond `next`: `nth` (what `skip` / `step_by` call; a std default method
+/// an implementation may override with a fast path) skips k elements and yields the next one; the
+/// skipped ones are dropped by the call, everything left is dropped with the iterator.
+fn c_into_iter_nth<const N: usize, const HEAP: bool, const LEN: usize>() {
+    let (sv, m) = shape_sv::<N, HEAP, LEN>();
+    let k: usize = kani::any();
+    kani::assume(k <= LEN + 1);
+    let mut it = sv.into_iter();
+    match it.nth(k) {
+        Some(d) => {
+            assert!(k < m.len && d.id == m.ids[k] && d.val == m.vals[k]);
+            assert!(unsafe { DROPS[d.id as usize] } == 0);
+            drop(d);
+        }
+        None => assert!(k >= m.len),
+    }
+    // the skipped elements are gone already
+    let mut j = 0;
+    while j < m.len && j < k {
+        assert!(unsafe { DROPS[m.ids[j] as usize] } == 1);
+        j += 1;
+    }
+    drop(it);
+    assert!(all_dropped_once());
+}
+op_harnesses!(c_into_iter_nth, VERIF_PARAM_UNWIND, u3_into_iter_nth_n1_inline, u3_into_iter_nth_n1_heap, u3_into_iter_nth_n2_inline, u3_into_iter_nth_n2_heap);
+
 fn c_into_iter_u32<const N: usize, const HEAP: bool, const LEN: usize>() {
     let (sv, vals) = shape_sv_u32::<N, HEAP, LEN>();
     let mut k = 0;
